@@ -21,7 +21,7 @@ ASSUMPTIONS = ["claimed: literal lexical forms through the N-Triples, Turtle/N3 
 BODIES = dict(kern.BODIES)
 
 # ---- engine S on the list-detection code of the serializers ---------------------------------------------------
-MALFORMED = ["ok", "no-rest-last", "no-first-mid", "two-firsts", "extra-prop", "cycle", "dangling-rest"]
+MALFORMED = ["ok", "no-rest-last", "no-first-mid", "two-firsts", "extra-prop", "extra-type", "cycle", "dangling-rest"]
 
 
 def _chain(desc, F, args):
@@ -62,6 +62,9 @@ def _chain(desc, F, args):
         g.add((cells[k], RDF.first, extra))
     if d == "extra-prop":
         g.add((cells[k], URIRef("urn:p"), extra))
+    if d == "extra-type":
+        # a cell that is also an instance of some class: writing the chain as a list would lose that statement
+        g.add((cells[k], RDF.type, URIRef("urn:Class")))
     g.add((URIRef("urn:s"), URIRef("urn:list"), cells[0]))
     malformed = d != "ok"
     if d == "two-firsts" and (extra is ms[k] or extra == ms[k]):
